@@ -7,3 +7,4 @@ pub mod coqfmt;
 pub mod sim;
 pub mod cmd_limits;
 pub mod ast2coq;
+pub mod oracles;
